@@ -1081,7 +1081,8 @@ func compareHash(a *SexpHash, bs Sexp) (int, error) {
 func (p *SexpHash) CopyMap() *map[int][]*SexpPair {
 	cp := make(map[int][]*SexpPair)
 	for k, v := range p.Map {
-		cp[k] = v
+		// each bucket is copied too: HashSet updates buckets in place
+		cp[k] = append([]*SexpPair(nil), v...)
 	}
 	return &cp
 }
@@ -1093,7 +1094,7 @@ func (p *SexpHash) CloneFrom(src *SexpHash) {
 	p.TypeName = src.TypeName
 	p.Map = *(src.CopyMap())
 
-	p.KeyOrder = src.KeyOrder
+	p.KeyOrder = append([]Sexp(nil), src.KeyOrder...)
 	p.GoStructFactory = src.GoStructFactory
 	p.NumKeys = src.NumKeys
 	p.GoMethods = src.GoMethods
